@@ -121,6 +121,30 @@ def gen(chk):
     # a variable call is a call: its arguments are evaluated once, in order (they are dropped today: open finding)
     cases.append(('"before".p\nr := 1.^f3(t(1), t(2))\n"after".p\n', "before\n1\n2\nafter\n", "varcall-args"))
     cases.append(('"before".p\nr := [1, 2]@^idf(t(1))\n"after".p\n', "before\n1\nafter\n", "varcall-args"))
+    # short-cut operators and conditionals: the deciding operand is evaluated exactly once, the other one never or once
+    L = lambda ms: "".join("%s\n" % m for m in ["before"] + ms + ["after"])
+    sc = [("t(1) || t(2)", [1]), ("tz(1) || t(2)", [1, 2]), ("tz(1) && t(2)", [1]), ("t(1) && t(2)", [1, 2]),
+          ("t(1) || t(2) || t(3)", [1]), ("tz(1) || tz(2) || t(3)", [1, 2, 3]), ("t(1) && t(2) && t(3)", [1, 2, 3]), ("t(1) && tz(2) && t(3)", [1, 2]),
+          ("tz(1) && t(2) || t(3)", [1, 3]), ("t(1) && t(2) || t(3)", [1, 2]), ("(t(1) || t(2)) && t(3)", [1, 3]), ("(tz(1) || t(2)) && t(3)", [1, 2, 3]),
+          ("tz(1) || t(2) && t(3)", [1, 2, 3]), ("t(1) || t(2) && t(3)", [1]),
+          ("[t(1) || t(2), tz(3) && t(4), tz(5) || t(6)]", [1, 3, 5, 6]), ("f3(t(1) || t(2), tz(3) || t(4), t(5) && t(6))", [1, 3, 4, 5, 6]),
+          ("{a: t(1) || t(2), b: tz(3) || t(4)}", [1, 3, 4]), ('"#{ t(1) || t(2) }-#{ tz(3) && t(4) }"', [1, 3]),
+          ("t(1) if t(2) else t(3)", [2, 1]), ("t(1) if tz(2) else t(3)", [2, 3]), ("(t(1) if tz(2))", [2]),
+          ("it0.next || t(2)", []), ("(it0.next || t(2)) + it0.next", []), ("!t(1)", [1]), ("!!tz(1)", [1]), ("-t(1)", [1])]
+    for body, ms in sc:
+        pre = "it0 := [10, 20, 30]._iter\n" if "it0" in body else ""
+        cases.append((pre + '"before".p\nr := ' + body + '\n"after".p\nr.p\n', None, "shortcut"))
+        if "it0" not in body:
+            cases.append(('"before".p\nr := ' + body + '\n"after".p\n', L(ms), "shortcut"))
+    cases.append(('it0 := [10, 20, 30]._iter\nr := [it0.next || 0, it0.next && 1, it0.next]\nr.p\n', "[10, 1, 30]\n", "shortcut"))
+    cases.append(('a := tz(1)\na ||= t(2)\na ||= t(3)\na &&= t(4)\na.p\n', "1\n2\n4\n4\n", "shortcut"))
+    # a call whose property does not exist still evaluates what is written — arguments, keyword arguments, chain argument —
+    # once and in order before it fails, and an argument's own error wins
+    for body, ms in [("{}.nosuch(t(1), t(2))", [1, 2]), ("1.nosuch(t(1), k: t(2))", [1, 2]), ('"s".nosuch(*[t(1)], **{k: t(2)})', [1, 2]),
+                     ("[1, 2]@nosuch(t(1))", [1]), ("{a: 1}.nosuch(t(1)).foo(t(2))", [1]), ("nil.nosuch(t(1), t(2))", [1, 2])]:
+        cases.append(('"before".p\nr := "".try.{ ' + body + ' }\n"after".p\nr.err.kindOf?(NoPropErr).p\n', L(ms) + "true\n", "undefined-prop-args"))
+    cases.append(('"before".p\nr := "".try.{ {}.nosuch(t(1), boom(2), t(3)) }\n"after".p\nr.err.msg.p\n', L([1, 2]) + "E2\n", "undefined-prop-args"))
+    cases.append(('"before".p\nr := "".try.{ {}.nosuch(t(1), k: boomz(2)) }\n"after".p\nr.err.kindOf?(ZeroDivisionErr).p\n', L([1, 2]) + "true\n", "undefined-prop-args"))
     rng.setstate(st)
     n = 300 if chk.tier == "quick" else 8000
     for _ in range(n):
